@@ -75,7 +75,9 @@ impl<L: Language, CF: CostFunction<L>> Extractor<L, CF> {
         let mut children = Vec::new();
 
         // the stored e-node can have redundant slots, which `i.m` doesn't cover: they get fresh names.
-        let l = self.map[&i.id].0.apply_slotmap_fresh(&i.m);
+        // Its bound slots are renamed for every call: an argument in `i.m` may be spelled like the name
+        // they were given when the extractor was built (the caller can read it off an earlier result).
+        let l = self.map[&i.id].0.refresh_private().apply_slotmap_fresh(&i.m);
         for child in l.applied_id_occurrences() {
             let n = self.extract(&child, eg);
             children.push(n);
